@@ -14,7 +14,7 @@ from .evalmir import (SymbolicLoop, Unsupported, Struct, EnumV, ArrV, Ref, PrimV
 
 
 class LoopRec(object):
-    __slots__ = ("lid", "body", "header", "vars", "conts", "exits", "trip", "calls", "min_ticks", "nrounds")
+    __slots__ = ("lid", "body", "header", "vars", "conts", "exits", "trip", "calls", "min_ticks", "nrounds", "closed")
 
 
 class Havoc(object):
@@ -209,6 +209,10 @@ def log_reset(ev, m):
     del ev.loops_log[m[4]:]
 
 
+import os, sys
+_DEBUG = os.environ.get("VF_DEBUG_LOOP")
+
+
 def summarise(ev, st0, fr, H, stops):
     if not ev.summarise_loops:
         raise SymbolicLoop(fr.body["key"], H, None, None, "loop summarisation disabled")
@@ -326,6 +330,9 @@ def summarise(ev, st0, fr, H, stops):
                 a_, b_ = P.arange(ev, o.st, nv)
                 lo, hi = min(lo, a_), max(hi, b_)
             top = (0, T.mask(t.w))
+            if _DEBUG and _DEBUG in n:
+                print("LOOPDBG   ", n, "old", ranges[n], "joined", (lo, hi), "unstable", unstable_rounds.get(n), "narrowed", n in narrowed,
+                      [T.show(resolve(ev, o.st, value_at(ev, o.st, wh)), 3)[:200] for o in conts], file=sys.stderr)
             if ranges[n] == top and n not in narrowed and isinstance(init, T.T):
                 # narrowing: the value after one iteration from an arbitrary value, joined with the initial value
                 nlo, nhi = P.arange(ev, st0, init)
@@ -354,6 +361,8 @@ def summarise(ev, st0, fr, H, stops):
                     if acc:
                         accel.add(n)
                 new[n] = (lo, hi)
+        if _DEBUG:
+            print("LOOPDBG round", rounds, {k: v for k, v in new.items() if _DEBUG in k}, "accel", [a for a in accel if _DEBUG in a], file=sys.stderr)
         ranges = new
         if not changed:
             break
@@ -375,9 +384,17 @@ def summarise(ev, st0, fr, H, stops):
     rec.calls = list(ev.calls[c0:])
     rec.min_ticks = min([tick_depth(o.st.world, pre.world) for o in conts] or [0])
     rec.nrounds = rounds
+    rec.closed = False
     ev.loops_log.append(rec)
     result = []
     others = [o for o in outs if not (o.how == "stop" and o.at == H)]
+    closed = bit_length_loop(ev, hvf, conts, others, rec, pre)
+    if closed is not None:
+        # the loop's exact effect is known: continue from the exit with the closed forms in the variables' places
+        rec.closed = True
+        o = others[0]
+        for wh, val in closed:
+            o.st.objs[wh[0]] = _with_value(o.st.objs[wh[0]], wh[1:], val)
     for o in others:
         cond = o.cond if len(others) > 1 else T.TRUE
         if o.how == "ret" or (o.how == "stop" and o.at in stops):
@@ -386,6 +403,57 @@ def summarise(ev, st0, fr, H, stops):
             for o2 in ev.run(o.st, fr, o.at, stops, pred=some_pred):
                 result.append(Out(T.and1([cond, o2.cond]), o2.st, o2.how, o2.at))
     return result
+
+
+
+def _with_value(obj, path, val):
+    if not path:
+        return val
+    k = path[0]
+    if k[0] == "f" and isinstance(obj, Struct):
+        fs = list(obj.fields)
+        fs[k[1]] = _with_value(fs[k[1]], path[1:], val)
+        return Struct(fs)
+    raise Unsupported("loop variable inside %r" % (obj,))
+
+
+def bit_length_loop(ev, hv, conts, others, rec, pre):
+    """`while v != 0 { v >>= 1; k += c; .. }` with nothing else happening: on exit v = 0 and every k = k0 + c * bitlen(v0).
+    -> [(where, closed form)] or None"""
+    if len(conts) != 1 or len(others) != 1 or rec.calls or conts[0].st.world is not pre.world or others[0].how != "stop":
+        return None
+    o = conts[0]
+    shifted = None
+    counters = []
+    for n, wh, init, t in hv.vars:
+        # variables that are neither the shifted value nor a constant-step counter keep their havocked value (sound: the
+        # closed forms of the others do not depend on them)
+        if not (isinstance(t, T.T) and isinstance(init, T.T) and t.op in ("sym", "rng") and t.w > 1):
+            continue
+        if any(step[0] != "f" for step in wh[1:]):
+            continue
+        nv = value_at(ev, o.st, wh)
+        if not isinstance(nv, T.T):
+            continue
+        nv = resolve(ev, o.st, nv)
+        if nv is T.lshr(t, 1) and shifted is None and _nonzero_known(o.st, t):
+            shifted = (wh, init, t)
+            continue
+        d = T.sub(nv, t)
+        if d.op == "const":
+            counters.append((wh, init, t, d))
+    if shifted is None:
+        return None
+    wh_v, v0, tv = shifted
+    ex = others[0]
+    if not (ex.cond is T.eqz(tv) or T.eqz(tv) in ex.st.assume):
+        return None
+    bitlen = T.sub(T.const(tv.w, 32), T.lz(v0))
+    out = [(wh_v, T.const(0, tv.w))]
+    for wh, init, t, d in counters:
+        n_ = T.zext(bitlen, t.w) if t.w > 32 else T.trunc(bitlen, t.w) if t.w < 32 else bitlen
+        out.append((wh, T.add(init, T.mul(d, n_))))
+    return out
 
 
 def resolve(ev, st, t):
@@ -495,6 +563,11 @@ def countdown_bound(ev, hv, conts):
         nv = resolve(ev, o.st, nv)
         return nv
 
+    # a value shifted right until it is zero (`while v != 0 { v >>= 1; .. }`): at most as many iterations as v has bits
+    for n, wh, init, t in hv.vars:
+        if isinstance(t, T.T) and t.op in ("sym", "rng") and t.w > 1 and isinstance(init, T.T):
+            if all(steps(o, wh, t) is T.lshr(t, 1) and _nonzero_known(o.st, t) for o in conts):
+                return t.w
     # one counter
     for n, wh, init, t in cands:
         ok = True
